@@ -73,6 +73,8 @@ def t4_conds(mode, timeout=300, quick=False):
     out = []
     nk = 4 + len(G.EDIT_TOKENS)
     for sc in range(G.NCORPUS):
+        if sc in G.CORPUS_MODES and mode not in G.CORPUS_MODES[sc]:
+            continue
         for lo, hi in parts(nk, 4 if quick else 16):
             out.append(Cond("t4-script%d-edit%02d_%02d" % (sc, lo, hi), "harness/c01gen.py", "t4",
                             env={"T1_MODE": mode, "T4_SCRIPT": sc, "T4_KLO": lo, "T4_KHI": hi,
@@ -80,6 +82,6 @@ def t4_conds(mode, timeout=300, quick=False):
     return out
 
 
-T4_BOUND = ("7 valid corpus scripts using every supported command, tag, match type, list / multi-line form, nesting, "
+T4_BOUND = ("7 valid corpus scripts (C03: 8, one more with comment look-alikes inside multi-line strings) using every supported command, tag, match type, list / multi-line form, nesting, "
             "elsif/else, anyof/allof/not; unedited and with every single edit (delete / duplicate / swap-with-next / "
             "replace by one of 12 tokens at every position) x LF/CRLF x comment placement x final line end / none / trailing comment without line end (quick tier: LF, no comment, final line end) x require written as one list / one command per extension / two lists")
